@@ -407,7 +407,7 @@ CLAIMS = {
     "C22": dict(
         text="For each of the three handler rebuild paths the MIR data flow of the reward argument passed to Handler::mainnet* is resolved and the question "
              "`can the rebuilt handler's reward switch differ from the current one` is put to z3 and cvc5 (one query per call site, all call sites of the "
-             "function body). A model is replayed through the real Handler API (native tool) before it is reported.",
+             "function body); one level down, the Boolean parameter of PostExecutionHandler::new must be what selects Some(reward_beneficiary) vs None. A model is replayed through the real Handler API (native tool) before it is reported.",
         note="Partial: decides persistence of the switch across pop_handle_register / create_handle_generic / modify_spec_id only; honouring the switch inside a "
              "transaction and identical other effects are whole-transaction statements outside this technique's reach here.",
         technique="MIR data-flow resolution + SMT query (z3+cvc5) per rebuild call site; native replay on the real Handler",
@@ -428,7 +428,8 @@ CLAIMS = {
     "C08": dict(
         text="The one primitive through which calls move value, JournaledState::transfer, is searched over all paths of its MIR control-flow graph (z3 and cvc5) for an "
              "outcome - success, OutOfFunds, OverflowPayment - on which the number of debits differs from the number of credits of the transferred amount; a model is "
-             "replayed on the real journaled state with balances at the 2^256 boundary.",
+             "replayed on the real journaled state with balances at the 2^256 boundary. The same search decides JournaledState::selfdestruct (a zeroed balance with another "
+             "beneficiary was credited to it first) and reimburse_caller (credited exactly once on every non-error return).",
         note="Partial: `transfer` (debits == credits on every outcome), `selfdestruct` (a zeroed balance with a different beneficiary is always credited) and "
              "`reimburse_caller` (the caller is credited on every non-error path); amounts, the transaction-level sum and the other fee moves are outside.",
         technique="SMT path search (z3+cvc5) over the MIR control-flow graph with debit/credit classification of balance stores; native replay",
@@ -436,8 +437,9 @@ CLAIMS = {
     "C09": dict(
         text="The transaction-level gas bookkeeping is decided on the real functions for all 64-bit values: last_frame_return (gas used <= limit, whole limit on a halt, "
              "unspent gas back on success/revert, refund only on success) and refund (final refund = min(recorded, spent/5 | spent/2)) by CBMC on a real Context; the "
-             "EIP-7623 floor step is read off the MIR of transact_preverified_inner and its arithmetic is compared by z3/cvc5 with max(spent - refund, floor).",
-        note="Partial: the fee payments to sender and beneficiary and `intrinsic <= used` need the journal (hash maps) and are outside.",
+             "EIP-7623 floor step is read off the MIR of transact_preverified_inner and its arithmetic is compared by z3/cvc5 with max(spent - refund, floor); the prices and amounts of the fee "
+             "payments are followed by MIR data flow (beneficiary: effective_gas_price or effective_gas_price - basefee, times spent - refunded; reimbursement: effective_gas_price times remaining + refunded).",
+        note="Partial: that the fee payments land on the right accounts with the journal, the per-transaction sum and `intrinsic <= used` are outside (journal, hash maps).",
         technique="Kani/CBMC on the real last_frame_return/refund (full u64 domain) + MIR structure scan with SMT arithmetic check of the floor step",
         engine="kani-cbmc + smt-mir", design_ref="DESIGN.md §5 C09"),
     "C10": dict(
@@ -480,7 +482,8 @@ CLAIMS = {
         design_ref="DESIGN.md §5 C14"),
     "C29": dict(
         text="Each closure the inspector register installs around frame creation and frame return is searched over all its control-flow paths (z3 and cvc5) for one on "
-             "which its input stack is pushed / popped a net number of times other than +1 / -1 - including the path on which the inspector supplies the outcome itself. "
+             "which its input stack is pushed / popped a net number of times other than +1 / -1 - including the path on which the inspector supplies the outcome itself; and every "
+             "FrameOrResult built by make_call_frame / make_create_frame / make_eofcreate_frame (or a helper they call) must be of the function's own kind, because the kind selects the stack that is popped. "
              "A model is replayed by running nested calls and a create under a counting inspector, with and without short-circuiting.",
         note="Partial: per-closure balance only; the pairing of closures by the call loop, step bracketing and log reporting are outside.",
         technique="SMT path search (z3+cvc5) over the MIR control-flow graphs of the inspector closures with push/pop counting; native replay with a counting inspector",
@@ -488,8 +491,8 @@ CLAIMS = {
     "C31": dict(
         text="The three public entry points that run or pre-verify a transaction are searched over all control-flow paths (z3 and cvc5) for an exit - normal or through `?` - "
              "whose last context-touching call is not followed by Evm::clear(); error hooks passed to inspect_err are analysed the same way (they must clear on every "
-             "path). A model is replayed with a transaction that fails the sender-state check on a real Evm.",
-        note="Partial: decides that the reset is *invoked* on every exit, not what it resets nor the equivalence with a fresh EVM.",
+             "path); JournaledState::clear must overwrite the whole state by a fresh one on every path. A model is replayed with a transaction that fails the sender-state check on a real Evm.",
+        note="Partial: decides that the reset is invoked on every exit and that it is a whole-struct reset; the equivalence of result sequences with a fresh EVM is outside.",
         technique="SMT path search (z3+cvc5) over the MIR control-flow graphs of the Evm entry points and their error-hook closures; native replay",
         engine="smt-mir", design_ref="DESIGN.md §5 C31"),
     "C32": dict(
